@@ -35,7 +35,7 @@ ASSUMPTIONS = [
     "<=2); several lost options are reported one by one; raising routes are "
     "reduced to the 1-minimal failing option set instead",
 ]
-BUDGET_S = {"quick": 70, "thorough": 800}
+BUDGET_S = {"quick": 80, "thorough": 840}
 ROUTES = ["from_config", "get_quantizer_dict", "get_quantizer_legacy_dict",
           "keras_deserialize"]
 # options without any effect on outputs (variable plumbing only); symmetric
@@ -315,7 +315,11 @@ def run(ctx):
     ctx.info["lattice"] = info
   cases = []
   for i, c in enumerate(cfgs):
-    orders = [True, False] if c["kw"].get("use_variables") else [i % 2 == 0]
+    # get_config has extra branches once use_variables turned qnoise_factor
+    # into a tf.Variable: run those configurations in both orders (thorough:
+    # only the small ones, the full products alternate)
+    both = c["kw"].get("use_variables") and (ctx.quick or len(c["kw"]) <= 3)
+    orders = [True, False] if both else [i % 2 == 0]
     for cf in orders:
       cases.append(({"cls": c["cls"], "kw": c["kw"], "call_first": cf,
                      "probes": LATTICE_PROBES, "seed": LATTICE_SEED},
